@@ -3,7 +3,7 @@
 Correspondence of Model/C02.v (token manager + client pipe/request machine + client side of the message manager)
 with the real Context / TokenManager / MessageManager / Pipe / Request objects driven in virtual time over a fake
 message interface, using the REAL udp6 endpoint address class (its equality is one of the anchors)."""
-import os, sys, json, socket, logging, types
+import os, sys, json, socket, logging, types, warnings
 import fw
 from fw import gz, gbool, glist, gopt, gbytes
 
@@ -16,6 +16,12 @@ class _Iface:            # what UDP6EndpointAddress keeps a weak reference to
 
 def _host(r): return ("ff02::%x" % (r - MC_BASE + 0xfd)) if r >= MC_BASE else ("fe80::%x" % (r + 1))
 
+_RANK = {"send": 0, "token": 1, "result": 2, "exception": 2, "cancelled": 2, "notify": 3, "obserr": 3, "raised": 4, "loopexc": 5, "crash": 6}
+def canon(items):
+    """outputs of one event: datagrams first, then per category in order of occurrence (future callbacks run deferred,
+    observation callbacks immediately, so the interleaving across categories is not comparable)"""
+    return sorted(items, key=lambda x: _RANK[x[0]])
+
 class Driver:
     """One event script against one fresh Context. Every call into aiocoap is followed by draining the ready queue."""
     def __init__(self, inp):
@@ -23,7 +29,7 @@ class Driver:
         from aiocoap.transports.udp6 import UDP6EndpointAddress, _in6_pktinfo
         import simloop, simnet
         self.aiocoap = aiocoap; self.A = UDP6EndpointAddress
-        logging.getLogger("coap").setLevel(logging.CRITICAL + 1)
+        logging.getLogger("coap").setLevel(logging.CRITICAL + 1); warnings.simplefilter("ignore")
         self.loop = simloop.VLoop()
         simnet.patch_random(uniform_value=inp["t0"] / 1e6, mid0=inp["mid0"], token0=inp["token0"] % 65536)
         proto.time = types.SimpleNamespace(time=lambda: 0.0)      # OBSERVATION_RESET_TIME clause never fires (C07's business)
@@ -63,13 +69,12 @@ class Driver:
         A = self.aiocoap
         for (t, remote, raw) in self.mi.take():
             m = A.Message.decode(raw, remote)
-            self.out.insert(len([x for x in self.out if x[0] == "send"]),
-                            ["send", self.rid_of(remote), int(m.mtype), int(m.code), m.mid, list(m.token), m.opt.observe])
+            self.out.append(["send", self.rid_of(remote), int(m.mtype), int(m.code), m.mid, list(m.token), m.opt.observe])
         for c in self.loop.exceptions[self.nexc:]:
             e = c.get("exception"); self.out.append(["loopexc", type(e).__name__ if e is not None else str(c.get("message"))[:40]])
         self.nexc = len(self.loop.exceptions)
         out, self.out = self.out, []
-        return out
+        return canon(out)
     # -- events
     def ev_req(self, q, r, mtype, obs):
         A = self.aiocoap
@@ -84,7 +89,7 @@ class Driver:
             def done(f, q=q):
                 if f.cancelled(): self.out.append(["cancelled", q]); return
                 e = f.exception()
-                if e is not None: self.out.append(["exception", q, self.errname(e), isinstance(e, A.error.Error)])
+                if e is not None: self.out.append(["exception", q, self.errname(e)])
                 else:
                     resp = f.result()
                     self.out.append(["result", q, int.from_bytes(resp.payload, "big"), list(resp.token), self.rid_of(resp.remote)])
@@ -92,9 +97,9 @@ class Driver:
             if req.observation is not None:
                 req.observation.register_callback(lambda resp, q=q: self.out.append(["notify", q, int.from_bytes(resp.payload, "big"), list(resp.token), self.rid_of(resp.remote)]), _suppress_deprecation=True)
                 req.observation.register_errback(lambda e, q=q: self.out.append(["obserr", q, self.errname(e)]), _suppress_deprecation=True)
+        before = self.tman._token
         self.guarded(go)
-        tok = m.token
-        self.out.append(["token", q, list(tok) if tok is not None else None])
+        if self.tman._token != before: self.out.append(["token", q, list(m.token)])      # next_token was called for this request
     def ev_recv(self, r, mcl, mtype, code, mid, token, observe, rid):
         A = self.aiocoap
         m = A.Message(mtype=A.numbers.types.Type(mtype), code=A.numbers.codes.Code(code), mid=mid, token=bytes(token))
@@ -117,7 +122,7 @@ class Driver:
     def ev_err(self, r, kind):
         A = self.aiocoap
         exc = {"os": OSError(111, "Connection refused"), "net": A.error.NetworkError("unreachable"),
-               "timeout": A.error.TimeoutError("t"), "resolution": A.error.ResolutionError("r")}[kind]
+               "cre": A.error.ConRetransmitsExceeded("t"), "msg": A.error.MessageError("m")}[kind]
         self.guarded(self.mman.dispatch_error, exc, self.addr(r, incoming=True))
     def ev_cancel(self, q):
         if q in self.reqs: self.guarded(self.reqs[q].response.cancel)
@@ -159,18 +164,395 @@ class Driver:
         return {"trace": trace, "final": final}
 
 
+# ------------------------------------------------------------------------------------------------ generator
+ERRKINDS = ["os", "net", "cre", "msg"]
+def tokbytes(ctr): return list((ctr % 2 ** 64).to_bytes(8, "big").lstrip(b"\0"))
+
+class Gen:
+    """Builds one event script while predicting tokens / mids the way a network adversary who sniffs the wire could,
+    so that forged responses are aimed precisely (right token & wrong remote, retired token, ...)."""
+    def __init__(self, rng, token0, mid0):
+        self.rng = rng; self.tok = token0; self.mid = mid0; self.reqs = []; self.events = []; self.rid = 0
+        self.delayed = []; self.history = []; self.shut = False; self.obsv = {}
+    def remotes(self): return [0, 1, 2]
+    def new_rid(self): self.rid += 1; return self.rid
+    def ev(self, e): self.events.append(e)
+    def req(self, r=None, mtype="?", obs=None):
+        rng = self.rng
+        if r is None: r = rng.choice([0, 0, 0, 1, 1, 2, MC_BASE]) if rng.random() < 0.9 else rng.choice([MC_BASE, MC_BASE + 1])
+        if mtype == "?": mtype = rng.choice([CON, CON, CON, CON, NON, NON, None])
+        if obs is None: obs = rng.random() < 0.3
+        q = len(self.reqs)
+        info = {"q": q, "r": r, "mtype": mtype, "obs": obs, "tok": None, "mid": None}
+        if not self.shut:
+            self.tok = (self.tok + 1) % 2 ** 64; info["tok"] = tokbytes(self.tok)
+            eff = mtype if mtype is not None else (NON if r >= MC_BASE else CON)
+            info["eff"] = eff
+            if not (eff == CON and r >= MC_BASE):
+                info["mid"] = self.mid; self.mid = (self.mid + 1) & 0xFFFF
+        self.reqs.append(info); self.ev(["req", q, r, mtype, obs]); return info
+    def other_remote(self, r):
+        return self.rng.choice([x for x in [0, 1, 2, 3] if x != r])
+    def mutate_token(self, tok):
+        rng = self.rng; k = rng.randrange(7)
+        others = [x["tok"] for x in self.reqs if x["tok"] is not None and x["tok"] != tok]
+        if k == 0 and others: return rng.choice(others)
+        if k == 1: return [0] + tok                      # same integer, different token
+        if k == 2: return tok[:-1]
+        if k == 3: return tokbytes(self.tok + 1)         # the token the next request will get
+        if k == 4: return []
+        if k == 5: return tok + [0]
+        return [rng.randrange(256) for _ in range(rng.randint(1, 8))]
+    def response(self, info=None, variant=None):
+        """a response datagram aimed at request `info`"""
+        rng = self.rng
+        known = [x for x in self.reqs if x["tok"] is not None]
+        if info is None:
+            if not known: return self.stray()
+            info = rng.choice(known)
+        if variant is None:
+            variant = rng.choices(["genuine", "wrong_remote", "wrong_token", "dup"], [60, 15, 15, 10])[0]
+        if variant == "dup" and self.history:
+            e = list(rng.choice(self.history)); self.ev(e); return
+        r = info["r"] if info["r"] < MC_BASE else rng.choice([0, 1, 2])
+        tok = info["tok"]
+        if variant == "wrong_remote": r = self.other_remote(r)
+        if variant == "wrong_token": tok = self.mutate_token(tok)
+        kind = rng.random()
+        if info["mid"] is not None and info.get("eff") == CON and kind < 0.4: mtype, mid = ACK, info["mid"]      # piggy-backed
+        elif kind < 0.75: mtype, mid = CON, rng.randrange(65536)
+        elif kind < 0.95: mtype, mid = NON, rng.randrange(65536)
+        else: mtype, mid = ACK, rng.randrange(65536)                                                           # ACK with a wrong mid
+        if info["obs"]:
+            v = self.obsv.get(info["q"], rng.choice([0, 5, 2 ** 23 - 1, 2 ** 24 - 3]))
+            step = rng.choice([1, 1, 1, 2, 0, -1, 2 ** 23, 2 ** 23 + 1, 2 ** 23 - 1])
+            v = (v + step) % 2 ** 24; self.obsv[info["q"]] = v
+            observe = v if rng.random() < 0.8 else None
+        else:
+            observe = None if rng.random() < 0.9 else rng.randrange(100)
+        code = rng.choice([69, 69, 69, 68, 132, 160, 65])
+        mcl = rng.random() < 0.08
+        e = ["recv", r, mcl, mtype, code, mid, tok, observe, self.new_rid()]
+        if rng.random() < 0.25: self.delayed.append(e)          # delayed / reordered datagram
+        else: self.history.append(e); self.ev(e)
+    def release_delayed(self):
+        if self.delayed:
+            e = self.delayed.pop(self.rng.randrange(len(self.delayed))); self.history.append(e); self.ev(e)
+    def empty(self, info=None):
+        """empty ACK / RST / ping"""
+        rng = self.rng
+        sent = [x for x in self.reqs if x["mid"] is not None]
+        if info is None and sent and rng.random() < 0.8: info = rng.choice(sent)
+        mtype = rng.choice([ACK, ACK, ACK, RST, RST, CON])
+        if info is not None:
+            r = info["r"] if rng.random() < 0.85 else self.other_remote(info["r"])
+            mid = info["mid"] if rng.random() < 0.85 else (info["mid"] + rng.choice([1, -1, 256])) & 0xFFFF
+        else: r, mid = rng.choice([0, 1, 2]), rng.randrange(65536)
+        e = ["recv", r, rng.random() < 0.05, mtype, 0, mid, [], None, 0]
+        self.history.append(e); self.ev(e)
+    def stray(self):
+        rng = self.rng
+        code = rng.choice([69, 69, 132, 200, 224, 225, 63, 192])
+        self.ev(["recv", rng.choice([0, 1, 2, 3]), rng.random() < 0.1, rng.choice([CON, CON, NON, ACK, RST]), code, rng.randrange(65536),
+                 [rng.randrange(256) for _ in range(rng.randint(0, 8))], rng.choice([None, None, 7]), self.new_rid()])
+    def random_event(self, maxreq):
+        rng = self.rng; x = rng.random()
+        if x < 0.22 and len(self.reqs) < maxreq: self.req()
+        elif x < 0.60: self.response()
+        elif x < 0.70: self.empty()
+        elif x < 0.74: self.stray()
+        elif x < 0.80: self.release_delayed()
+        elif x < 0.88: self.ev(["fire"])
+        elif x < 0.91: self.ev(["adv", rng.choice([1, 1000, 999999, 2000000, 2500000, 5000000, 70000000])])
+        elif x < 0.945: self.ev(["err", rng.choice([0, 0, 1, 2, 3]), rng.choice(ERRKINDS)])
+        elif x < 0.97 and self.reqs: self.ev(["cancel", rng.randrange(len(self.reqs))])
+        elif x < 0.99 and self.reqs:
+            obs = [i["q"] for i in self.reqs if i["obs"]]
+            self.ev(["obscancel", rng.choice(obs) if obs else rng.randrange(len(self.reqs))])
+        else:
+            self.ev(["shutdown"]); self.shut = True
+
+def gen_script(rng, kind):
+    token0 = rng.choice([rng.randrange(65536), rng.randrange(65536), 0, 255, 65535, 2 ** 64 - 2, 2 ** 64 - 3, 2 ** 56 - 1])
+    mid0 = rng.choice([rng.randrange(65536), rng.randrange(65536), 65534, 65535, 0])
+    t0 = rng.choice([2000000, 2000000, 2500000, 3000000])
+    g = Gen(rng, token0, mid0)
+    if kind == "random":
+        for _ in range(rng.randint(4, 40)): g.random_event(maxreq=6)
+        while g.delayed and rng.random() < 0.7: g.release_delayed()
+    elif kind == "nomc":        # unicast only, heavier on errors (keeps clear of the multicast-key defect)
+        for _ in range(rng.randint(4, 40)):
+            if rng.random() < 0.25 and len(g.reqs) < 6: g.req(r=rng.choice([0, 0, 1, 2]))
+            elif rng.random() < 0.15: g.ev(["err", rng.choice([0, 1, 2]), rng.choice(ERRKINDS)])
+            else: g.random_event(maxreq=0)
+    elif kind == "timeout":     # several CONs, little traffic, then every timer until silence
+        for _ in range(rng.randint(1, 5)): g.req(r=rng.choice([0, 0, 1]), mtype=rng.choice([CON, CON, None, NON]))
+        for _ in range(rng.randint(0, 6)): g.random_event(maxreq=6)
+        for _ in range(6 * len(g.reqs) + 6): g.ev(["fire"])
+    elif kind == "shutdown":    # a busy scenario with shutdown at a random position, then more traffic
+        n = rng.randint(3, 20); pos = rng.randrange(n)
+        for i in range(n):
+            if i == pos: g.ev(["shutdown"]); g.shut = True
+            g.random_event(maxreq=6)
+    elif kind == "forge":       # one victim request, then every forgery against it, then the genuine answer
+        victim = g.req(r=rng.choice([0, 1, MC_BASE]), mtype=rng.choice([CON, NON, None]) , obs=rng.random() < 0.3)
+        for _ in range(rng.randint(0, 2)): g.req()
+        for _ in range(rng.randint(2, 10)):
+            g.response(victim, rng.choice(["wrong_remote", "wrong_token", "wrong_token", "genuine", "dup"]))
+        g.response(victim, "genuine"); g.response(victim, "genuine")
+        while g.delayed: g.release_delayed()
+    return {"token0": token0, "mid0": mid0, "t0": t0, "events": g.events}
+
+KINDS = ["random"] * 5 + ["nomc"] * 3 + ["timeout", "shutdown", "forge", "forge"]
+
+# ------------------------------------------------------------------------------------------------ the plugin
+EXN_NAMES = {"OtherError": "InvalidStateError"}
+
 class C02(fw.Property):
     id = "C02"
     coq_props = "Props/C02.v"
-    gen_jobs = []
-    model_imports = ["Verif.Model.C02"]
+    gen_jobs = ["tokenmanager_next_token"]
+    model_imports = ["Verif.Lib.Py", "Verif.Gen.tokenmanager_next_token", "Verif.Model.C02"]
     quick_budget = 300
     thorough_budget = 12000
     design_ref = "DESIGN.md section 7"
+    technique = ("Coq invariant/refinement proofs over an executable model of TokenManager + Pipe + Request + client side of MessageManager "
+                 "(next_token translated from source); differential correspondence of complete output traces with the real objects under a virtual-time loop")
+    level_text = ("Theorems (closed under the global context) over Model/C02.v for ALL event lists: responses are delivered only to the outstanding request registered under "
+                  "(token, source endpoint) (or (token, None) for a multicast request); unmatched CON responses yield exactly one RST (none when received on a multicast address), "
+                  "matched ones exactly one empty ACK; every request completes at most once and only with a library error class; a completed non-observe request's key is gone; "
+                  "transport errors / shutdown / RST / retransmission give-up fail the affected outstanding requests; tokens of outstanding requests are pairwise different (< 2^64 requests). "
+                  "The model is tied to the code by comparing complete per-event output traces and final tables with the real objects.")
+    level_note = ("Liveness is conditional (section 7 of the design): NON requests and empty-ACKed CON requests without response stay pending by design. The transport-error theorem carries the "
+                  "hypothesis 'no multicast request outstanding'; without it the code raises AttributeError (open finding, refuted-witness proved). Observation freshness uses a frozen time.time() "
+                  "(the OBSERVATION_RESET_TIME clause is C07's). Server side / request codes, real sockets and real-time jitter are not modelled.")
+    rule = ("event scripts (4-45 events) against a fresh Context: up to 6 concurrent requests (CON/NON/default, observe or not) to 3 unicast remotes and multicast groups; responses aimed at "
+            "outstanding/retired requests as piggy-backed ACK / separate CON / NON / ACK with wrong mid, genuine or forged (right token+wrong remote, mutated/guessed/retired token), duplicated, "
+            "delayed and reordered, received on unicast or multicast addresses; empty ACK/RST/ping with right or wrong mid/remote; codes that do not fit; timer firings and time advances; "
+            "transport errors per remote (OSError, NetworkError, subclasses); response-future cancellation; observation cancellation; shutdown at any point followed by more traffic; "
+            "token counter near 2^64 and mid counter near 2^16. Streams: random, nomc (unicast only), timeout (all timers until silence), shutdown, forge. "
+            "Non-trivial = at least one response delivered and at least one response rejected (unmatched) in the same script; distinct by full script.")
+    trusted_base = ["translator translate/py2v.py (+ the lstrip rule in translate/jobs/c02.py) and Lib/Py.v prelude, validated by the token outputs of every script",
+                    "hand-written Model/C02.v, validated by the correspondence streams (complete traces, 0 disagreements required)",
+                    "harness/simloop.py virtual-time loop (ideal timers, FIFO ready queue); fake message interface; real udp6 endpoint address class with synthetic sockaddr/pktinfo"]
+    assumptions = ["each external event is followed by running the event loop until the ready queue is empty (event + its consequences = one model step)",
+                   "the application cancels an observation only after the first response arrived; request ids are fresh",
+                   "no datagram is dispatched after Context.shutdown (the transport is closed)",
+                   "time.time() frozen for the observation freshness rule; random.uniform returns the script's ACK timeout"]
 
     def gen_cases(self, tier, rng, n):
-        return []
+        for k in range(n):
+            kind = KINDS[k % len(KINDS)]
+            yield kind, gen_script(rng, kind)
+        if tier == "thorough":
+            # shutdown / transport error / cancellation inserted at EVERY position of fixed busy scenarios
+            for seed in range(12):
+                r2 = __import__("random").Random(1000 + seed)
+                base = gen_script(r2, "nomc" if seed % 2 else "random")
+                evs = base["events"]
+                for fault in (["shutdown"], ["err", 0, "os"], ["cancel", 0], ["fire"]):
+                    for pos in range(len(evs) + 1):
+                        yield "fault_everywhere", dict(base, events=evs[:pos] + [fault] + evs[pos:])
+
+    # ---------------------------------------------------------------- implementation
     def impl(self, stream, inp):
         return Driver(inp).run(inp["events"])
+
+    # ---------------------------------------------------------------- model
+    def model(self, stream, inp):
+        def wire(mtype, code, mid, tok, obs, rid):
+            return "{| w_mtype := %s; w_code := %s; w_mid := %s; w_token := %s; w_observe := %s; w_rid := %s |}" % (
+                gz(mtype), gz(code), gz(mid), gbytes(tok), gopt(obs, gz), gz(rid if code != 0 else 0))
+        evs = []
+        for e in inp["events"]:
+            k = e[0]
+            if k == "req": evs.append("Request %s %s %s %s" % (gz(e[1]), gz(e[2]), gopt(e[3], gz), gbool(e[4])))
+            elif k == "recv": evs.append("Recv %s %s %s" % (gz(e[1]), gbool(e[2]), wire(*e[3:])))
+            elif k == "fire": evs.append("Fire")
+            elif k == "adv": evs.append("Adv %s" % gz(e[1]))
+            elif k == "err": evs.append("Err %s %s" % (gz(e[1]), {"os": "EOs", "net": "(ENet NetworkError)", "cre": "(ENet ConRetransmitsExceeded)", "msg": "(ENet MessageError)"}[e[2]]))
+            elif k == "cancel": evs.append("Cancel %s" % gz(e[1]))
+            elif k == "obscancel": evs.append("ObsCancel %s" % gz(e[1]))
+            elif k == "shutdown": evs.append("Shutdown")
+            else: raise ValueError(k)
+        return "let r := run (init %s %s %s) %s in (snd r, snapshot (fst r))" % (gz(inp["token0"]), gz(inp["mid0"]), gz(inp["t0"]), glist(evs))
+    def decode(self, stream, inp, p):
+        trace, snap = p
+        def opt(x, f=lambda y: y):
+            if isinstance(x, fw.Ctor) and x.name == "None": return None
+            assert isinstance(x, fw.Ctor) and x.name == "Some", x
+            return f(x.args[0])
+        def exn(e): return EXN_NAMES.get(e.name, e.name)
+        def item(o):
+            n, a = o.name, o.args
+            if n == "Send": return ["send", a[0], a[1], a[2], a[3], list(a[4]), opt(a[5])]
+            if n == "Token": return ["token", a[0], list(a[1])]
+            if n == "SetResult": return ["result", a[0], a[1], list(a[2]), a[3]]
+            if n == "SetException": return ["exception", a[0], exn(a[1])]
+            if n == "Cancelled": return ["cancelled", a[0]]
+            if n == "Notify": return ["notify", a[0], a[1], list(a[2]), a[3]]
+            if n == "ObsError": return ["obserr", a[0], exn(a[1])]
+            if n == "Raised": return ["raised", exn(a[0])]
+            if n == "LoopExc": return ["loopexc", exn(a[0])]
+            if n == "Crash": return ["crash", exn(a[0])]
+            raise ValueError(n)
+        og, ex, bl, now = snap
+        return {"trace": [canon([item(o) for o in evo]) for evo in trace],
+                "final": {"outgoing": opt(og, lambda l: [[list(k[0]), opt(k[1])] for k in l]),
+                          "exchanges": opt(ex, lambda l: sorted([k[0], k[1]] for k in l)),
+                          "backlogs": sorted([b[0], list(b[1])] for b in bl), "now": now}}
+
+    # ---------------------------------------------------------------- oracle: the property on the implementation's behaviour
+    def oracle(self, stream, inp, res):
+        if "harness_exception" in res: return ("C02:crash:" + res["where"], "driver raised %s: %s" % (res["harness_exception"], res.get("text")))
+        import aiocoap.error as E
+        def is_lib(name): return isinstance(getattr(E, name, None), type) and issubclass(getattr(E, name), E.Error)
+        def is_net(name): return is_lib(name) and issubclass(getattr(E, name), E.NetworkError)
+        R = {}                      # q -> bookkeeping
+        shut = False
+        def outstanding(): return [x for x in R.values() if x["live"]]
+        def matches(x, tok, r): return x["live"] and x["tok"] == tok and (x["mc"] or x["r"] == r)
+        for ev, outs in zip(inp["events"], res["trace"]):
+            k = ev[0]
+            sends = [o for o in outs if o[0] == "send"]
+            escaped = [o[1] for o in outs if o[0] in ("raised", "loopexc")]
+            mcpend = ":mc-pending" if any(x["mc"] for x in outstanding()) else ""
+            completions = [o for o in outs if o[0] in ("result", "exception", "cancelled")]
+            deliveries = [o for o in outs if o[0] in ("result", "notify")]
+            # -- every request completes at most once, and only with a library error
+            for o in completions:
+                q = o[1]
+                if q not in R and not (k == "req" and ev[1] == q): return ("C02:completion-of-unknown-request", "%r" % (o,))
+                if q in R and R[q]["done"] is not None: return ("C02:completed-twice", "request %d completed again with %r after %r" % (q, o, R[q]["done"]))
+                if o[0] == "exception" and not is_lib(o[2]): return ("C02:non-library-exception:" + o[2], "request %d failed with %s, not derived from aiocoap.error.Error" % (q, o[2]))
+            if len(set(o[1] for o in completions)) != len(completions): return ("C02:completed-twice", "two completions of one request in one step: %r" % (completions,))
+            # -- deliveries only as the answer to the datagram being processed, to the matching outstanding request
+            for o in deliveries:
+                q, rid, tok, frm = o[1], o[2], o[3], o[4]
+                if k != "recv" or ev[8] != rid: return ("C02:delivery-without-response", "%r handed out while processing %r" % (o, ev))
+                x = R.get(q)
+                if x is None or not x["live"]: return ("C02:delivered-to-retired", "response %d delivered to request %d which is not outstanding" % (rid, q))
+                if tok != ev[6] or x["tok"] != ev[6]: return ("C02:delivered-wrong-token", "response with token %r delivered to request %d (token %r)" % (ev[6], q, x["tok"]))
+                if frm != ev[1] or not (x["mc"] or x["r"] == ev[1]): return ("C02:delivered-wrong-remote", "response from remote %d delivered to request %d sent to %d" % (ev[1], q, x["r"]))
+                if not (64 <= ev[4] < 192): return ("C02:delivered-non-response", "code %d delivered" % ev[4])
+                if o[0] == "notify" and (x["obs_cancelled"] or x["done"] is None): return ("C02:notify-unexpected", "notification %d for request %d (cancelled=%s, first response seen=%s)" % (rid, q, x["obs_cancelled"], x["done"] is not None))
+            if len(deliveries) > 1: return ("C02:response-delivered-twice", "%r" % (deliveries,))
+            # -- per event kind
+            if k == "req":
+                q, r = ev[1], ev[2]
+                tok = next((o[2] for o in outs if o[0] == "token" and o[1] == q), None)
+                failed = next((o for o in completions if o[1] == q), None)
+                if tok is not None:
+                    for x in outstanding():
+                        if x["tok"] == tok and (x["r"] == r or x["mc"] or r >= MC_BASE):
+                            return ("C02:token-reused", "request %d got token %r which request %d (outstanding, same endpoint) is using" % (q, tok, x["q"]))
+                R[q] = {"q": q, "r": r, "mc": r >= MC_BASE, "obs": ev[4], "tok": tok, "live": tok is not None and failed is None, "done": failed,
+                        "obs_cancelled": False, "con": None, "mid": None, "acked": False, "gaveup": False}
+                mine = [s for s in sends if s[5] == tok and s[3] == 1]
+                if mine: R[q]["con"] = mine[0][2] == CON; R[q]["mid"] = mine[0][4]
+                elif failed is None: R[q]["con"] = True          # not on the wire yet: queued behind another CON
+                if shut and failed is None: return ("C02:request-after-shutdown-pending", "request %d issued after shutdown did not fail" % q)
+                if shut and failed[2] != "LibraryShutdown": return ("C02:request-after-shutdown-pending", "request %d after shutdown: %r" % (q, failed))
+            elif k == "recv" and not shut:
+                r, mcl, mtype, code, mid, tok = ev[1:7]
+                for s in sends:       # learn mids of requests released from the backlog
+                    for x in R.values():
+                        if s[3] == 1 and x["tok"] == s[5] and x["mid"] is None: x["mid"] = s[4]; x["con"] = s[2] == CON
+                if mtype in (ACK, RST):
+                    for x in R.values():
+                        if x["r"] == r and x["mid"] == mid:
+                            # a Reset for a CON request whose exchange is still open (never acknowledged) must fail it
+                            if mtype == RST and x["live"] and x["con"] and not x["acked"] and not x["gaveup"]: x["rst_seen"] = True
+                            x["acked"] = True
+                is_resp = 64 <= code < 192
+                cands = [x for x in R.values() if matches(x, tok, r)] if is_resp else []
+                acks = [s for s in sends if s[1] == r and s[2] == ACK and s[3] == 0 and s[4] == mid]
+                rsts = [s for s in sends if s[1] == r and s[2] == RST and s[3] == 0 and s[4] == mid]
+                other_replies = [s for s in sends if s[2] in (ACK, RST) and s not in acks and s not in rsts]
+                if other_replies: return ("C02:spurious-reply", "%r while processing %r" % (other_replies, ev))
+                if is_resp and mtype in (CON, NON, ACK):
+                    if not cands:
+                        if deliveries: return ("C02:delivered-unmatched", "%r delivered although no outstanding request has token %r towards remote %d" % (deliveries, tok, r))
+                        if mtype == CON and not mcl and (len(rsts) != 1 or acks): return ("C02:unmatched-con-not-reset", "unmatched CON response %r answered with %r" % (ev, sends))
+                        if mtype == CON and mcl and (rsts or acks): return ("C02:reply-to-multicast", "unmatched CON response received on a multicast address answered with %r" % (sends,))
+                        if mtype != CON and (rsts or acks): return ("C02:spurious-reply", "%r answered with %r" % (ev, sends))
+                    else:
+                        x = cands[0]
+                        if x["obs_cancelled"]:
+                            if mtype == CON and len(acks) + len(rsts) != 1: return ("C02:matched-con-not-acked", "%r answered with %r" % (ev, sends))
+                            x["live"] = False
+                        else:
+                            if mtype == CON and (len(acks) != 1 or rsts): return ("C02:matched-con-not-acked", "matched CON response %r answered with %r" % (ev, sends))
+                            if mtype != CON and (acks or rsts): return ("C02:spurious-reply", "%r answered with %r" % (ev, sends))
+                            if x["done"] is None and not any(o[0] == "result" and o[1] == x["q"] for o in deliveries):
+                                return ("C02:matching-response-not-delivered", "response %r matches outstanding request %d but was not delivered" % (ev, x["q"]))
+                            final = not (x["obs"] and ev[7] is not None)
+                            if final: x["live"] = False
+                else:
+                    if deliveries: return ("C02:delivered-non-response", "%r" % (deliveries,))
+                    if code == 0 and mtype == CON: pass        # ping: answered with RST (C10's subject)
+                    elif acks or rsts: return ("C02:spurious-reply", "%r answered with %r" % (ev, sends))
+                # RST for the exchange of an outstanding CON request fails it with MessageError
+                if mtype == RST:
+                    for x in R.values():
+                        if x.pop("rst_seen", False) and x["done"] is None and x["live"]:
+                            if not any(o[0] == "exception" and o[1] == x["q"] for o in completions):
+                                return ("C02:reset-not-delivered", "RST for mid %d of request %d did not fail it" % (mid, x["q"]))
+            elif k == "err" and not shut:
+                r = ev[1]
+                for x in outstanding():
+                    if x["r"] == r and not x["mc"]:
+                        c = next((o for o in completions if o[1] == x["q"]), None)
+                        if x["done"] is None and (c is None or c[0] != "exception" or not is_net(c[2])):
+                            return ("C02:error-not-delivered:%s%s" % (escaped[0] if escaped else "silent", mcpend),
+                                    "transport error for remote %d: outstanding request %d got %r (escaped: %r)" % (r, x["q"], c, escaped))
+                        x["live"] = False
+            elif k == "cancel":
+                x = R.get(ev[1])
+                if x is not None and x["done"] is None:
+                    if not any(o[0] == "cancelled" and o[1] == x["q"] for o in completions): return ("C02:cancel-lost", "request %d" % x["q"])
+                    x["live"] = False
+            elif k == "obscancel":
+                x = R.get(ev[1])
+                if x is not None and x["obs"] and x["live"] and x["done"] is not None and x["done"][0] == "result": x["obs_cancelled"] = True
+            elif k == "shutdown" and not shut:
+                for x in outstanding():
+                    c = next((o for o in completions if o[1] == x["q"]), None)
+                    if x["done"] is None and (c is None or c[0] != "exception" or c[2] != "LibraryShutdown"):
+                        return ("C02:shutdown-not-delivered:%s" % (escaped[0] if escaped else "silent"), "request %d outstanding at shutdown got %r" % (x["q"], c))
+                    x["live"] = False
+                shut = True
+            # completions retire the request
+            for o in completions:
+                x = R.get(o[1])
+                if x is not None:
+                    x["done"] = o
+                    if o[0] != "result" or not x["obs"]: x["live"] = False
+            for o in outs:
+                if o[0] == "obserr" and o[1] in R: R[o[1]]["live"] = False
+                if o[0] == "exception" and o[1] in R and k in ("fire",): pass
+            if escaped:
+                return ("C02:exception-escaped:%s:%s%s" % (escaped[0], k, mcpend), "%s escaped from the library while processing %r" % (escaped[0], ev))
+            if any(o[0] == "crash" for o in outs): return ("C02:model-crash", "%r" % (outs,))
+        # -- an un-acknowledged CON request cannot stay pending once every timer has run out
+        fin = res["final"]
+        if fin["exchanges"] == [] and not shut:
+            for x in R.values():
+                if x["con"] and not x["mc"] and x["tok"] is not None and x["done"] is None and not x["acked"]:
+                    return ("C02:unacked-con-never-completed", "CON request %d (mid %r) was never acknowledged, all timers ran out, and it is still pending" % (x["q"], x["mid"]))
+        # -- the table holds exactly the outstanding requests
+        if fin["outgoing"] is not None:
+            want = sorted(([x["tok"], None if x["mc"] else x["r"]] for x in R.values() if x["live"] and not x["obs_cancelled"]), key=jd)
+            have = sorted((k for k in fin["outgoing"] if not any(x["obs_cancelled"] and x["tok"] == k[0] for x in R.values())), key=jd)
+            if jd(want) != jd(have): return ("C02:table-mismatch", "outgoing_requests holds %r, outstanding are %r" % (have, want))
+        return None
+
+    def nontrivial(self, stream, inp, res):
+        tr = res.get("trace", [])
+        delivered = any(o[0] in ("result", "notify") for outs in tr for o in outs)
+        rejected = any(ev[0] == "recv" and 64 <= ev[4] < 192 and not any(o[0] in ("result", "notify") for o in outs) for ev, outs in zip(inp["events"], tr))
+        return fw.jdump(inp) if delivered and rejected else None
+
+def jd(x): return json.dumps(x, sort_keys=True)
 
 PROPERTY = C02()
